@@ -586,9 +586,9 @@ class SoftPiecewiseConstantCoalescentGrid(ConstantCoalescent):
 
         # sampling times are data: torch.unique has no derivative, so keep it out of the graph
         with torch.no_grad():
-            sampling_heights, sampling_counts = node_heights.flatten()[
-                :taxa_count
-            ].unique(return_counts=True)
+            sampling_heights, sampling_counts = torch.unique(
+                node_heights[..., :taxa_count], return_counts=True, dim=-1
+            )
         sampling_heights = sampling_heights.expand(batch_shape + torch.Size([-1]))
         sampling_counts = sampling_counts.expand(batch_shape + torch.Size([-1]))
 
